@@ -17,6 +17,12 @@ Fixpoint backs {A} (pat : list bool) (outs : list (option A)) : list A :=
   | _, _ => []
   end.
 
+(* what a run handed out *)
+Definition somes {A} (outs : list (option A)) : list A := flat_map (fun o => match o with Some a => [a] | None => [] end) outs.
+
+Lemma somes_none {A} n : somes (repeat (@None A) n) = [].
+Proof. induction n as [|n IH]; cbn [repeat]; [reflexivity|]. unfold somes in *. cbn [flat_map app]. exact IH. Qed.
+
 Lemma take_ends_nil {A} (pat : list bool) : take_ends (@nil A) pat = (repeat None (length pat), []).
 Proof. induction pat as [|[|] p IH]; cbn [take_ends length repeat]; [reflexivity| |]; rewrite IH; reflexivity. Qed.
 
